@@ -135,4 +135,30 @@ def LruCache.get (c : LruCache) (idx : Nat) : Nat × LruCache :=
     let es := ((idx, h) :: c.entries).take c.cap
     (h, { c with entries := es, nextHandle := h + 1 })
 
+/-! ### The statements behind the decoder's actions
+
+Statements of the length-publication protocol as they stand in `bases/io/compression.rs`
+(`decode_to_end`); tools/extract_funcs.py extracts the sequences on every run (Generated/FuncsSync.lean). -/
+
+inductive SVStmt where
+  | readChunk      -- `decoder.take(size).read_to_end(&mut buffer.data)`: writes above the published length
+  | lock           -- `lock.lock()`
+  | branchOnRead   -- `match read { Ok .. / Err .. }`
+  | advance        -- `uncompressed += read`
+  | publish        -- `state.decoded = uncompressed` (under the lock)
+  | notifyAll      -- `cvar.notify_all()`
+  | setFailed      -- `state.failed = true` (under the lock)
+  | stop           -- `return Err(e)`
+  deriving Repr, DecidableEq
+
+/-- one turn of the decoder loop: `.write n` (the chunk read), then under the lock either `.publish` or `.fail` -/
+def decoderTurnStmts : List SVStmt := [.readChunk, .lock, .branchOnRead]
+/-- `.publish`: the new length is stored under the lock, then every waiter is notified -/
+def decoderPublishStmts : List SVStmt := [.advance, .publish, .notifyAll]
+/-- `.fail`: the failure is stored under the lock, every waiter is notified, the decoder stops -/
+def decoderFailStmts : List SVStmt := [.setFailed, .notifyAll, .stop]
+
+/-- the condition under which a reader inside `wait_for(end)` keeps waiting (model: `.wake` is not enabled) -/
+def SV.keepsWaiting (s : SV) (end_ : Nat) : Bool := decide (s.d < end_) && !s.failedFlag
+
 end Jubako
